@@ -278,6 +278,25 @@ let firstpage_case r k =
   let rest = match rint r 3 with 0 -> pageish r | 1 -> enc_page (valid_page r) | _ -> rbytes r (1 + rint r 300) in
   emit ~fn:"FirstPageOnly" ~tag:(e ^ ".first_page_only") ~s:"ok" ~m:"ok" [ e; hexf (first @ rest); string_of_int (rint r 5) ]
 
+(* fixed-layout scalars with a small header deciding how many bytes follow (inet/cidr: family, bits, is_cidr, nb; varbit/bit:
+   bit count; path/polygon: point count; macaddr, interval, timetz, tid ...): every payload length around the sizes the header
+   promises (seeded change C10-10: a 19-byte AF_INET6 value read as the 20-byte layout) *)
+let scalar_shape_case r k =
+  let oid, hdr = match rint r 6 with
+    | 0 | 1 -> (pick r [| 869; 650 |],
+                [ pick r [| 2; 3; 0; 1; 4; 255 |]; pick r [| 0; 8; 32; 33; 64; 128; 129; 255 |]; rint r 2; pick r [| 4; 16; 0; 5; 17; 255 |] ])
+    | 2 -> (pick r [| 1560; 1562 |], let n = pick r [| 0; 1; 7; 8; 9; 64; 65; 0x7fffffff; 0xffffffff |] in
+            [ n land 255; (n lsr 8) land 255; (n lsr 16) land 255; (n lsr 24) land 255 ])
+    | 3 -> (pick r [| 602; 604 |], let n = pick r [| 0; 1; 2; 3; 0x7fffffff; 0xffffffff |] in
+            [ rint r 2; n land 255; (n lsr 8) land 255; (n lsr 16) land 255; (n lsr 24) land 255 ])
+    | 4 -> (pick r [| 829; 774; 1186; 1266; 27; 600; 601; 603; 718; 2950; 1083; 1114; 1184; 1082; 790; 3220 |], [])
+    | _ -> (pick r [| 3904; 3906; 3908; 3910; 3912; 3926 |], [ pick r [| 0; 1; 2; 4; 6; 8; 16; 24; 0x18; 0x1a; 0xff |] ]) in
+  let want = pick r [| 0; 1; 2; 3; 4; 5; 6; 7; 8; 9; 11; 12; 13; 15; 16; 17; 18; 19; 20; 21; 22; 23; 24; 25; 31; 32; 33 |] in
+  let hb = List.map byte_of_int hdr in
+  let v = List.filteri (fun i _ -> i < want) (hb @ rbytes r 40) in
+  let tl = match rint r 3 with 0 -> [] | 1 -> List.init 8 (fun _ -> byte_of_int 0xff) | _ -> rbytes r 4 in
+  emit ~fn:"NoPanic" ~tag:(Printf.sprintf "DecodeType.scalar_shape_oid%d" oid) ~s:"ok" ~m:"ok" [ "DecodeType"; hexf v; hexf tl; string_of_int oid ]
+
 let bomb_case r k =
   let depth = pick r [| 18; 24; 30; 40; 60 |] and fan = pick r [| 2; 2; 3 |] in
   let v = jsonb_bomb r depth fan in
@@ -291,6 +310,7 @@ let gen seed n =
   for k = 0 to 11 do bomb_case (rng_for seed (8500000 + k)) k done;
   for k = 0 to n / 150 do firstpage_case (rng_for seed (8700000 + k)) k done;
   for k = 0 to n / 40 do array_case (rng_for seed (8600000 + k)) k done;
+  for k = 0 to n / 10 do scalar_shape_case (rng_for seed (8800000 + k)) k done;
   for k = 0 to n / 30 do vl_case (rng_for seed (9000000 + k)) k done;
   for k = 0 to n / 10 do loc_case (rng_for seed (5000000 + k)) k done;
   for k = 0 to n / 45 do loc2_case (rng_for seed (6000000 + k)) k done
